@@ -106,6 +106,7 @@ class Shadow:
         self.dimnames = []
         self.scaled = set()
         self.scalesz = {}
+        self.uscale = {}
 
 
 def gen_set(r, sh, lines, iface, objtok, names, malformed):
@@ -184,6 +185,8 @@ def gen_history(r, name, malformed=False):
     dimpool = ["lat", "lon", "x", "time", "x1", "lat"] + dsnames[:2]
     # dimension-heavy histories: few sizes, names whose NC_string hash (sum of 4-byte words) collides
     dimheavy = r.random() < 0.22
+    # record-heavy histories: most datasets have an unlimited first dimension, each with a scale of its own length
+    recheavy = (not dimheavy) and r.random() < 0.18
     sizes = [1, 2, 3, 4, 5, 7]
     if dimheavy:
         base = r.choice(["DateTime", "lat_lon_", "abcdWXYZ", "TimeDateZone", "north_south_east"])
@@ -214,8 +217,10 @@ def gen_history(r, name, malformed=False):
                 continue
             if (a < 0.16 or not sh.vars) and wr and len(sh.vars) < 8:
                 rank = r.choice([1, 1, 2, 2, 3])
-                nt = r.choice(NTS)
+                nt = r.choice(NTS) | (LITEND if r.random() < 0.2 else 0)
                 dims = [r.choice(sizes) for _ in range(rank)]
+                if r.random() < (0.85 if recheavy else 0.22):
+                    dims[0] = 0                          # an unlimited (record) dimension
                 L.append("sd.create %s %d %d %s" % (hx(r.choice(dsnames)), nt, rank, " ".join(map(str, dims))))
                 sh.vars.append(("sds", rank, nt, dims))
                 continue
@@ -226,16 +231,18 @@ def gen_history(r, name, malformed=False):
             elif a < 0.62 and sh.vars:
                 i = r.randrange(len(sh.vars))
                 kind, rank, nt, dims = sh.vars[i]
-                sz = NTSZ[nt]
+                sz = NTSZ[nt & 255]
                 p = r.random()
                 if dimheavy and r.random() < 0.55:
                     p = 0.54 + 0.16 * r.random()          # mostly SDsetdimname
+                if recheavy and r.random() < 0.6:
+                    p = 0.70 + 0.16 * r.random()          # mostly SDsetdimscale (scales of different lengths)
                 if r.random() < 0.10:
                     # the valid range stored the netCDF way (valid_max / valid_min), possibly beside a valid_range of
                     # another type class; SDgetrange then takes its fall-back branch
                     pre = []
                     if r.random() < 0.3:
-                        fnt = r.choice([n for n in NTS if NTSZ[n] != sz or (n in (5, 6)) != (nt in (5, 6))])
+                        fnt = r.choice([n for n in NTS if NTSZ[n] != sz or (n in (5, 6)) != ((nt & 255) in (5, 6))])
                         pre.append("sd.setattr V%d %s %d 2 %s" % (i, hx("valid_range"), fnt, hx(rdata(r, 2 * NTSZ[fnt]))))
                     two = [("valid_max", rdata(r, sz)), ("valid_min", rdata(r, sz))]
                     if r.random() < 0.5:
@@ -244,7 +251,7 @@ def gen_history(r, name, malformed=False):
                     L.extend(pre)
                     for nm_, dat in two:
                         cnt_ = 1 if r.random() < 0.9 else 2
-                        L.append("sd.setattr V%d %s %d %d %s" % (i, hx(nm_), wnt, cnt_, hx((dat * cnt_)[:cnt_ * NTSZ[wnt]] if NTSZ[wnt] <= sz else rdata(r, cnt_ * NTSZ[wnt]))))
+                        L.append("sd.setattr V%d %s %d %d %s" % (i, hx(nm_), wnt, cnt_, hx((dat * cnt_)[:cnt_ * NTSZ[wnt & 255]] if NTSZ[wnt & 255] <= sz else rdata(r, cnt_ * NTSZ[wnt & 255]))))
                     L.append("sd.getrange V%d" % i)
                     continue
                 if p < 0.18:
@@ -265,11 +272,22 @@ def gen_history(r, name, malformed=False):
                     prev = sh.scalesz.get((i, d))
                     if prev is not None and NTSZ[snt] > prev and r.random() < 0.9:
                         snt = r.choice([n for n in NTS if NTSZ[n] <= prev])   # a wider type over an existing scale: known finding, rare
-                    cnt = dims[d] if r.random() < 0.9 else dims[d] + 1
-                    L.append("sd.setdimscale D%d.%d %d %d %s" % (i, d, cnt, snt, hx(rdata(r, cnt * NTSZ[snt]))))
-                    if cnt == dims[d]:
+                    if r.random() < 0.2:
+                        snt |= LITEND
+                    if dims[d] == 0:
+                        # unlimited dimension: any number of values; a re-set keeps the type and does not shrink
+                        pu = sh.uscale.get((i, d))
+                        cnt = r.choice([1, 2, 3, 5, 7])
+                        if pu is not None and r.random() < 0.9:
+                            snt, cnt = pu[0], max(cnt, pu[1])
+                        sh.uscale[(i, d)] = (snt, cnt)
                         sh.scaled.add((i, d))
-                        sh.scalesz[(i, d)] = NTSZ[snt]
+                    else:
+                        cnt = dims[d] if r.random() < 0.9 else dims[d] + 1
+                        if cnt == dims[d]:
+                            sh.scaled.add((i, d))
+                            sh.scalesz[(i, d)] = NTSZ[snt & 255]
+                    L.append("sd.setdimscale D%d.%d %d %d %s" % (i, d, cnt, snt, hx(rdata(r, cnt * NTSZ[snt & 255]))))
                 else:
                     d = r.randrange(rank)
                     ss = [r.choice(["-", "e", hx(rtext(r, r.choice([1, 4, 12, 30])))]) for _ in range(3)]
@@ -295,7 +313,7 @@ def gen_history(r, name, malformed=False):
                              "sd.getrange V%d" % i, "sd.getfill V%d" % i, "sd.diminfo D%d.%d" % (i, d),
                              "sd.diminfo D%d.%d" % (i, d), "sd.getdimstrs D%d.%d %d" % (i, d, r.choice([1, 5, 13, 64]))]
                     if (i, d) in sh.scaled or r.random() < 0.05:
-                        cands += ["sd.getdimscale D%d.%d" % (i, d)] * 2
+                        cands += ["sd.getdimscale D%d.%d" % (i, d)] * (8 if recheavy else 2)
                     L.append(r.choice(cands))
         else:
             wr = sh.h_mode in ("c", "w")
@@ -339,6 +357,22 @@ def gen_history(r, name, malformed=False):
                 iface, o = "vg", "%d" % r.randrange(sh.vgs)
             if malformed and r.random() < 0.05:
                 o = {"gr": "I9", "vs": "9 0", "vg": "9"}[iface]
+            if iface in ("vs", "vg") and r.random() < 0.10:
+                # the object attached for reading (in a file that is usually open for writing): sets must be refused
+                if r.random() < 0.7:
+                    n0 = len(L)
+                    gen_set(r, Shadow(), L, iface, o, hn, False)
+                    L[n0] = L[n0].replace(iface + ".setattr", iface + ".rsetattr", 1)
+                    cur = sh.hattr.get(iface + o, {})
+                    if cur and r.random() < 0.6:         # aim at an existing attribute: an in-place overwrite if not refused
+                        t = L[n0].split()
+                        nm0 = r.choice(list(cur))
+                        nt0, c0 = cur[nm0]
+                        L[n0] = " ".join(t[:-4] + [hx(nm0), str(nt0), str(c0), hx(rdata(r, c0 * NTSZ[nt0 & 255]))])
+                    L.append("%s.attrs %s" % (iface, o))
+                else:
+                    L.append("%s.rattrs %s" % (iface, o))
+                continue
             setok = wr or iface != "gr" or (malformed and r.random() < 0.1)
             if a < 0.55 and setok and (wr or r.random() < 0.2):
                 gen_set(r, sh, L, iface, o, hn, malformed)
@@ -364,6 +398,8 @@ def gen_history(r, name, malformed=False):
             L += ["sd.getdatastrs V%d 64" % i]
             for d in range(v[1]):
                 L += ["sd.diminfo D%d.%d" % (i, d), "sd.attrs D%d.%d" % (i, d), "sd.getdimstrs D%d.%d 64" % (i, d)]
+                if (i, d) in sh.scaled and (i, d) in sh.uscale:
+                    L.append("sd.getdimscale D%d.%d" % (i, d))
         L.append("sd.end")
     if want_h:
         if sh.h_mode is not None:
@@ -412,11 +448,12 @@ def gen_unit_history(r, name):
             nt = r.choice([x for x in NTS])
         cnt = pick_count(r, NTSZ.get(nt & 255, 1), k == "gr") if r.random() < 0.95 else r.choice([0, -1])
         data = hx(rdata(r, max(cnt, 0) * NTSZ.get(nt & 255, 1)))
+        rd = "r" if r.random() < 0.12 else ""        # now and then through an object attached for reading
         if k == "vs":
-            L.append("vs.setattr 0 %d %s %d %d %s" % (r.choice([-1] + list(range(nf)) + ([nf, 7] if r.random() < 0.1 else [])),
-                                                      hx(nm), nt, cnt, data))
+            L.append("vs.%ssetattr 0 %d %s %d %d %s" % (rd, r.choice([-1] + list(range(nf)) + ([nf, 7] if r.random() < 0.1 else [])),
+                                                        hx(nm), nt, cnt, data))
         elif k == "vg":
-            L.append("vg.setattr 0 %s %d %d %s" % (hx(nm), nt, cnt, data))
+            L.append("vg.%ssetattr 0 %s %d %d %s" % (rd, hx(nm), nt, cnt, data))
         else:
             L.append("gr.setattr %s %s %d %d %s" % (r.choice(["G", "I0"]), hx(nm), nt, cnt, data))
         u.append(nm)
@@ -606,6 +643,12 @@ def signature(hist, i, R, S, ctx=None):
     if t[0] == "sd.attrinfo" and s.startswith("ok") and r.startswith("ok"):
         a, b = r.split(), s.split()
         if len(a) == len(b) == 5 and a[2:] == b[2:] and a[1] == cut(b[1]) and a[1] != b[1]:
+            return tag
+    if t[0] == "sd.lookup" and r.startswith("ok") and s.startswith("ok"):
+        # only attribute COUNTS differ: a name cut to 64 bytes on reopen and set again in full is a second attribute
+        a, b = r.split(), s.split()
+        if len(a) == len(b) and (len(a) - 3) % 8 == 0 and a != b and \
+                all(x == y or y == "?" or (k >= 2 and (k - 2) % 8 == 7) for k, (x, y) in enumerate(zip(a, b))):
             return tag
     if t[0] == "sd.findattr" and len(unhx(t[2])) > 64 and r == "fail" and s.startswith("ok"):
         return tag
